@@ -688,6 +688,10 @@ int vorbis_encode_setup_init(vorbis_info *vi){
   highlevel_encode_setup *hi=&ci->hi;
 
   if(ci==NULL)return(OV_EINVAL);
+  if(hi->set_in_stone)return(OV_EINVAL); /* the set-up was completed
+                                            before; filling its tables
+                                            again would leak the first
+                                            set */
   if(vi->channels<1||vi->channels>255)return(OV_EINVAL);
   if(!hi->impulse_block_p)i0=1;
 
